@@ -33,6 +33,7 @@ type c03Case struct {
 	Gap     bool        `json:"gap_topology"`
 	Plans   []Plan      `json:"plans"`
 	Actions []c03Action `json:"actions"`
+	Moved   []SlotNode  `json:"moved,omitempty"` // slots whose owner changed: the old owner answers -MOVED (fragments of split requests included)
 }
 
 var c03Variants = []c01Variant{
@@ -50,6 +51,20 @@ func c03Gen(t *rapid.T) c03Case {
 	o := pipeOpts{MaxReqs: 8, Multi: true, MaxKeys: 5, Local: true, Rejected: true, HoldPct: 70}
 	if c.Gap {
 		o.BadSlots = c01BadSlots
+	}
+	if rapid.IntRange(0, 2).Draw(t, "movedslots") == 0 {
+		for k := rapid.IntRange(1, 3).Draw(t, "nmoved"); k > 0; k-- {
+			slot := rapid.SampledFrom(defaultSlots).Draw(t, "movedslot")
+			dup := slot >= 16000
+			for _, m := range c.Moved {
+				if m.Slot == slot {
+					dup = true
+				}
+			}
+			if !dup {
+				c.Moved = append(c.Moved, SlotNode{Slot: slot, Node: (c13NodeOf(slot) + 1 + rapid.IntRange(0, 1).Draw(t, "movedto")) % 3})
+			}
+		}
 	}
 	n := rapid.IntRange(5, 40).Draw(t, "nactions")
 	c.Actions = append(c.Actions, c03Action{Kind: "connect"}, c03Action{Kind: "connect"})
@@ -101,11 +116,11 @@ func c03Exec(c *c03Case) []Discrepancy {
 }
 
 func c03Run(f *Fixture, c *c03Case) []Discrepancy {
-	spec := &PipeSpec{Plans: c.Plans}
+	spec := &PipeSpec{Plans: c.Plans, Moved: c.Moved}
 	pi := indexPlans(spec)
 	gates := &gateSet{}
 	f.Cluster.ResetLog()
-	f.Cluster.SetHandler(pi.handler(gates))
+	f.Cluster.SetHandler(redirectLayer(f, spec, pi.handler(gates)))
 	defer f.Cluster.SetHandler(nil)
 	rc := &refCtx{Password: c.Cfg.Password, MaxLen: c.Cfg.MaxLen, Owners: f.Owners}
 	var live []*c03Client
@@ -285,6 +300,10 @@ func c03Classify(c *c03Case) (bool, []string) {
 				}
 			}
 		}
+	}
+	if len(c.Moved) > 0 {
+		events = true
+		cls = append(cls, "some-slots-have-moved")
 	}
 	if c.Cfg.TimeoutMs > 0 {
 		events = true
